@@ -6,6 +6,8 @@
 //! flipped bit by bit; every public input is edited; the key and the transcript hash are
 //! swapped for wrong ones. Every mutated input must be rejected; the unmutated one accepted.
 
+mod stdlib;
+
 use ff::{Field, PrimeField};
 use group::{prime::PrimeCurveAffine, Curve, Group, GroupEncoding};
 use midnight_curves::{G1Affine, G1Projective};
@@ -88,7 +90,7 @@ fn repr_of(b: &[u8; 48]) -> <G1Affine as GroupEncoding>::Repr {
 }
 
 /// Crafted invalid / suspicious encodings of a group element (each must make the proof fail).
-fn crafted_points() -> Vec<(&'static str, [u8; 48])> {
+pub fn crafted_points() -> Vec<(&'static str, [u8; 48])> {
     let mut v = vec![];
     // x off the curve
     let mut x = BigUint::from(1u32);
@@ -130,7 +132,7 @@ fn crafted_points() -> Vec<(&'static str, [u8; 48])> {
     v
 }
 
-fn scalar_modulus() -> BigUint {
+pub fn scalar_modulus() -> BigUint {
     BigUint::parse_bytes(F::MODULUS.trim_start_matches("0x").as_bytes(), 16).unwrap()
 }
 
@@ -305,7 +307,7 @@ fn apply(s: &Subject, mu: &Mutation, seed: u64) -> Result<Option<Verdict>, Strin
 
 fn main() {
     let mut cx = Ctx::from_args("C03", Level::FaultEnumeration);
-    vcore::pin_global_rayon(1);
+    cx.worker_rayon_threads = Some(1);
     cx.set_rule(
         "proofs of a sub-lattice of Fam(p) (both hashes, with/without lookups, trash, committed \
          column, num_proofs 1..2, two circuit sizes) x {every group element -> 2P, -P, identity, P+G, \
@@ -405,6 +407,7 @@ fn main() {
         }
         out
     });
+    stdlib::run(&mut cx);
     let orig = cx.class_count("mutations:original:accept");
     cx.require(orig as usize == subjects.len() && orig > 0, "every unmutated proof must be accepted");
     for c in ["class:group->neg", "class:group->off-curve", "class:group->on-curve-not-in-subgroup", "class:scalar+1", "class:scalar->noncanonical(s+r)", "class:append-bytes", "class:instance+1", "class:committed-instance-edit", "class:wrong-vk:one-fixed-cell-changed", "class:wrong-vk:other-k", "class:wrong-transcript-hash", "class:instance-move-column"] {
